@@ -28,6 +28,11 @@ def gen(rng):
         # two noise generators with different seeds (the noise library keeps one process-wide seed)
         return {"part": "pkg", "shape": "noise2", "seeds": [rng.randint(1, 50), rng.randint(51, 99)], "steps": [rng.choice([1, 2]), rng.choice([1, 2])],
                 "days": rng.randint(3, 6)}
+    if r < 0.64:
+        # two producers in different units of one dimension, two consumers whose inputs were declared with one and the same Info
+        # object (units left open): each input ends up with the units of its own source, whatever the listing
+        return {"part": "pkg", "shape": "shared_info", "units": rng.choice([["m", "km"], ["km", "m"], ["mm", "cm"]]), "steps": [rng.choice([1, 2]), rng.choice([1, 2])],
+                "days": rng.randint(3, 5)}
     if r < 0.70:
         # no start time given to run(): it is the earliest time among the components, one of which (a TimeTrigger without
         # a start) learns its time only during connect
@@ -80,6 +85,23 @@ def run_special(case, order):
         rb = _recorder("b", case["steps"][1], series, counting)
         comps = [na, nb, ra, rb]
         links = [(na, "Noise", ra), (nb, "Noise", rb)]
+    elif case["shape"] == "shared_info":
+        ga = fm.components.CallbackGenerator({"Out": (lambda t: float(1 + (t - START).days), fm.Info(time=None, grid=fm.NoGrid(), units=case["units"][0]))},
+                                             START, dt.timedelta(days=1))
+        gb = fm.components.CallbackGenerator({"Out": (lambda t: float(1 + 2 * (t - START).days), fm.Info(time=None, grid=fm.NoGrid(), units=case["units"][1]))},
+                                             START, dt.timedelta(days=1))
+        shared_info = fm.Info(time=None, grid=fm.NoGrid(), units=None)     # one object for both consumers' inputs
+
+        def recorder(name, step):
+            def rec(n, inp, t):
+                if inp is not None:
+                    series.setdefault(name, []).append([t.isoformat(), [float(x) for x in fm.data.get_magnitude(inp["In"]).reshape(-1)], str(inp["In"].units)])
+                return {}
+            return fm.components.CallbackComponent(inputs={"In": shared_info}, outputs={}, callback=counting(name, rec), start=START,
+                                                   step=dt.timedelta(days=step), initial_pull=True)
+        ra, rb = recorder("a", case["steps"][0]), recorder("b", case["steps"][1])
+        comps = [ga, gb, ra, rb]
+        links = [(ga, "Out", ra), (gb, "Out", rb)]
     elif case["shape"] == "autostart":
         info = lambda: fm.Info(time=None, grid=fm.NoGrid(), units="")  # noqa
         ge = fm.components.CallbackGenerator({"Out": (lambda t: float(t.toordinal() % 100), info())},
@@ -179,7 +201,7 @@ def run_order(case, order):
 
 def check(case):
     """returns None or (required, observed)"""
-    n = (4 if case.get("shape") == "noise2" else 3) if case.get("shape") else len(case["mids"]) + 2
+    n = (4 if case.get("shape") in ("noise2", "shared_info") else 3) if case.get("shape") else len(case["mids"]) + 2
     first = None
     for order in itertools.permutations(range(n)):
         r = run_order(case, list(order))
